@@ -72,6 +72,37 @@ def gen_cases(ctx, flags, n_random, n_sign):
         raw = wire.tx_encode(tx).hex()
         for f in flags:
             yield {"k": "pre", "tx": raw, "flag": f, "idx": 1, "script": mk_subscript(r, kind).hex(), "value": gen.u64(r)}
+    # twin inputs: the signed input has exact duplicates (same outpoint, sequence and script) elsewhere in the transaction, and the
+    # subscript is empty / only code separators / equal to the twins' script (selection of "the signed input" by value instead of by position)
+    for t_i in range(6):
+        k += 1
+        if k % N != S:
+            continue
+        ni = r.choice([2, 3, 5])
+        tx = gen.gen_tx(r, ni, r.choice([1, 2, ni]), coinbase=False, script_kw={"n_tokens": r.choice([0, 0, 1])})
+        idx = r.randrange(ni)
+        if t_i % 2 == 0:
+            tx["ins"][idx]["script"] = b""
+        if t_i % 3 == 0:
+            tx["ins"][idx]["seq"] = 0
+        twins = r.sample([j for j in range(ni) if j != idx], r.randrange(1, ni))
+        for j in twins:
+            tx["ins"][j] = dict(tx["ins"][idx])
+        raw = wire.tx_encode(tx).hex()
+        for sub in (b"", b"\xab", b"\xab\xab", tx["ins"][idx]["script"], b"\x51"):
+            for f in flags:
+                yield {"k": "pre", "tx": raw, "flag": f, "idx": idx, "script": sub.hex(), "value": gen.u64(r), "twin": True}
+    # code separators buried under many nested conditionals (in pass and in else branches)
+    for d in (20, 99, 100, 101, 102, 128, 150, 255, 256, 300, 400):
+        k += 1
+        if k % N != S:
+            continue
+        tx = gen.gen_tx(r, 2, 2, coinbase=False, script_kw={"n_tokens": 1})
+        raw = wire.tx_encode(tx).hex()
+        subs = [b"\x63" * d + b"\xab\x51\xab" + b"\x68" * d, b"\x63" * d + b"\x51" + b"\x67\xab\x68" * d, (b"\x51\x63\x67") * d + b"\xab\xac" + b"\x68" * d]
+        for sub in subs:
+            for f in (flags if d in (100, 101) else flags[:2]):
+                yield {"k": "pre", "tx": raw, "flag": f, "idx": 1, "script": sub.hex(), "value": gen.u64(r), "deep_sep": d}
     # random
     for _ in range(n_random):
         ni = r.choice([1, 1, 2, 3, 4, 6, 8])
@@ -129,6 +160,10 @@ def judge(ctx, case, forkid):
         ctx.hit("subscript>=253")
     if len(sub) >= 65536:
         ctx.hit("subscript>=65536")
+    if case.get("twin"):
+        ctx.hit("twin_inputs")
+    if case.get("deep_sep"):
+        ctx.hit("deeply_nested_code_separator")
     ctx.nontrivial()
     try:
         exp = sighash.preimage(tx, idx, sub, val, flag)
